@@ -761,6 +761,34 @@ def c13_violations(base, rng, per_rule=1):
             # only plant it on a struct nobody instantiates
             if l.f["name"] == "Main":
                 cases.append(Case(c.lines, rule, li + 1, doc_typed=False, cls="C13"))
+    # every violation planted in the LOCATION of a physical field once more with the next physical field of the same
+    # block placed at `$next`: the desugaring of `$next` copies the previous field's start and size expressions,
+    # the ill-typed one included, and the error must still be reported on the user's line
+    import copy
+    extra = []
+    for c in cases:
+        li = c.line - 1
+        l, b = c.lines[li], lines[li]
+        if l.kind not in ("field", "anon_bits") or b.kind != l.kind:
+            continue
+        if l.f["start"].render() == b.f["start"].render() and l.f["size"].render() == b.f["size"].render():
+            continue
+        nxt = None
+        for j in range(li + 1, len(c.lines)):
+            m = c.lines[j]
+            if m.indent < l.indent or m.kind == "head" and m.indent <= l.indent:
+                break
+            if m.indent == l.indent and m.kind in ("field", "anon_bits") and m.owner == l.owner:
+                nxt = j
+                break
+            if m.indent == l.indent and m.kind in ("if", "let"):
+                continue
+        if nxt is None:
+            continue
+        ls = copy.deepcopy(c.lines)
+        ls[nxt].f["start"] = L("int", "$next")
+        extra.append(Case(ls, c.rule, c.line, doc_typed=False, cls="C13", note=(c.note + " " if c.note else "") + "before-$next"))
+    cases.extend(extra)
     return cases
 
 
@@ -1166,12 +1194,356 @@ def backend_cases(base, rng, n=24):
     for sc, nm in combos[n:n + 6]:
         good, bad = FOREIGN_VALUES[nm]
         ls, line = build(sc, nm, "cpp", None, rng.choice(good + bad), rng.random() < 0.3)
-        # the front end accepts it (the C++ back end, which owns the qualifier, rejects unknown names later)
-        out.append(Case(ls, "boundary-ok:cpp-qualified-front-end-name:%s" % sc, line, doc_typed=True, doc_realisable=True, cls="C14"))
+        # the front end accepts it; the C++ back end, which owns the qualifier, knows only namespace and enum_case
+        out.append(Case(ls, "cpp-unknown-attribute:front-end-name:%s" % sc, line, doc_typed=True, doc_realisable=False, cls="C14"))
     for sc, nm in combos[n + 6:n + 10]:
         good, bad = FOREIGN_VALUES[nm]
         ls, line = build(sc, nm, "xyz", None, rng.choice(good), False)
         out.append(Case(ls, "attribute-undeclared-back-end", line, doc_typed=True, doc_realisable=False, cls="C14"))
         ls, line = build(sc, nm, "abc", "cpp, xyz", rng.choice(good), False)
         out.append(Case(ls, "attribute-undeclared-back-end", line, doc_typed=True, doc_realisable=False, cls="C14"))
+    return out
+
+
+# ----------------------------------------------------------------------------
+# C14 extension: strings for the (cpp) namespace / enum_case validators, (cpp) attribute cases,
+# further front-end rules, imports
+# ----------------------------------------------------------------------------
+_WS = [" ", " ", " ", "\t", "\n", "\x0b", "\x0c", "\r", "\x1c", "\x1f"]
+_IDS = ["a", "foo", "bar_1", "_x", "A9", "x__y", "Z", "ns2", "emboss", "q0_"]
+_CPP_WORDS = ["class", "int", "namespace", "NULL", "auto", "xor_eq", "_Bool", "complex", "this", "register"]
+_NEAR_WORDS = ["Class", "class_", "null", "ints", "nameSpace", "Auto"]
+
+
+def ns_strings(rng, n):
+    """[(rule, text)]: namespace values around every clause of the documented grammar."""
+    out = [("ns-ok:plain", "foo::bar::baz"), ("ns-ok:leading-colons", "::foo::bar::baz"), ("ns-ok:single", "simple"),
+           ("ns-empty", ""), ("ns-empty:spaces", "  \t "), ("ns-global", "::"), ("ns-global:spaces", " :: "),
+           ("ns-invalid:trailing-colons", "foo::"), ("ns-invalid:single-colon", "foo:bar"), ("ns-invalid:triple-colon", "foo:::bar"),
+           ("ns-invalid:digit-first", "9foo"), ("ns-invalid:two-idents", "foo bar"), ("ns-invalid:dot", "foo.bar"),
+           ("ns-invalid:double-global", "::::foo"), ("ns-invalid:space-in-colons", "foo: :bar"), ("ns-invalid:dash", "foo-bar"),
+           ("ns-reserved", "foo::class"), ("ns-reserved:first", "int::foo"), ("ns-reserved:null", "NULL"),
+           ("ns-ok:near-reserved", "Class::null::ints"), ("ns-ok:newline-end", "foo::bar\n"), ("ns-ok:newline-inside", "foo\n::\nbar"),
+           ("ns-invalid:nul", "foo\x00"), ("ns-ok:unit-separator", "\x1ffoo\x1c"), ("ns-invalid:x1b", "\x1bfoo"),
+           ("ns-invalid:x0e", "foo\x0e"), ("ns-invalid:x21", "foo!"), ("ns-invalid:at", "@foo"), ("ns-invalid:bracket", "foo[")]
+
+    def ws():
+        return "".join(rng.choice(_WS) for _ in range(rng.choice([0, 0, 0, 1, 1, 2])))
+    for _ in range(n):
+        k = rng.randint(1, 4)
+        ids = [rng.choice(_IDS + _NEAR_WORDS) for _ in range(k)]
+        rule = "ns-ok:random"
+        if rng.random() < 0.25:
+            ids[rng.randrange(k)] = rng.choice(_CPP_WORDS)
+            rule = "ns-reserved:random"
+        s = ws() + (("::" + ws()) if rng.random() < 0.4 else "")
+        s += ("::").join(ws() + i + ws() for i in ids)
+        m = rng.random()
+        if m < 0.45:
+            pos = rng.randrange(len(s) + 1)
+            ch = rng.choice([":", "::", " ", "9", "-", ".", ",", "\t", "a", "_", ":::", "\x00", "\x7f", "\x1b", "\x0e", "@", "[", "`", "{", "/", ";"])
+            if rng.random() < 0.5 and pos < len(s):
+                s = s[:pos] + s[pos + 1:]
+                rule = "ns-mutated:delete"
+            else:
+                s = s[:pos] + ch + s[pos:]
+                rule = "ns-mutated:insert"
+        out.append((rule, s))
+    return out
+
+
+def ec_strings(rng, n, supported=("SHOUTY_CASE", "kCamelCase")):
+    out = [("ec-ok:one", "kCamelCase"), ("ec-ok:two", "SHOUTY_CASE, kCamelCase"), ("ec-ok:trailing-comma", "kCamelCase,"),
+           ("ec-ok:trailing-comma-space", "kCamelCase , "), ("ec-empty", ""), ("ec-empty:spaces", "  "), ("ec-empty:comma", ","),
+           ("ec-empty:double-comma", "kCamelCase,,SHOUTY_CASE"), ("ec-empty:leading-comma", ",kCamelCase"),
+           ("ec-empty:two-trailing", "kCamelCase,,"), ("ec-duplicate", "kCamelCase, kCamelCase"),
+           ("ec-duplicate:three", "SHOUTY_CASE,kCamelCase,SHOUTY_CASE"), ("ec-unsupported", "snake_case"),
+           ("ec-unsupported:lower", "kcamelcase"), ("ec-unsupported:inner-space", "kCamel Case"),
+           ("ec-ok:tabs", "\tkCamelCase\t,\nSHOUTY_CASE\r"), ("ec-unsupported:nul", "kCamelCase\x00"), ("ec-ok:x1f", "\x1fkCamelCase")]
+    pool = list(supported) + list(supported) + ["snake_case", "K_CAMEL", "kCamelCas", "", "kCamelCase2"]
+
+    def ws():
+        return "".join(rng.choice(_WS) for _ in range(rng.choice([0, 0, 1, 1, 2])))
+    for _ in range(n):
+        k = rng.randint(1, 3)
+        cs = [rng.choice(pool) for _ in range(k)]
+        s = ",".join(ws() + c + ws() for c in cs)
+        if rng.random() < 0.3:
+            s += "," + ws()
+        if rng.random() < 0.2:
+            pos = rng.randrange(len(s) + 1)
+            s = s[:pos] + rng.choice([",", " ", "x", "\x00", ";"]) + s[pos:]
+        out.append(("ec-random", s))
+    return out
+
+
+def _mini_lines(default=True):
+    """A small realisable module with one site of every attribute scope (cheap to compile: the (cpp)
+    attribute rules, [requires] placement, parameter and 64-bit rules do not depend on the rest)."""
+    I = lambda n: L("int", str(n))
+    ls = []
+    if default:
+        ls.append(Line("attr", 0, name="byte_order", value='"LittleEndian"', default=True))
+    ls += [
+        Line("head", 0, what="enum", name="Ee", site="enum"),
+        Line("attr", 1, name="maximum_bits", value="8"),
+        Line("enum_value", 1, name="AA", value=I(0), site="enum-value"),
+        Line("enum_value", 1, name="BB", value=I(1)),
+        Line("head", 0, what="bits", name="Bi", site="bits"),
+        Line("field", 1, start=I(0), size=I(3), tname="UInt", name="lo"),
+        Line("field", 1, start=I(3), size=I(1), tname="Flag", name="fg"),
+        Line("field", 1, start=I(4), size=I(4), tname="Ee", name="hi"),
+        Line("head", 0, what="struct", name="St", params=[("pa", "UInt:8"), ("pe", "Ee")], site="struct"),
+        Line("field", 1, start=I(0), size=I(1), tname="UInt", name="xx", site="field"),
+        Line("field", 1, start=I(1), size=I(2), tname="Int", name="yy"),
+        Line("field", 1, start=I(3), size=I(1), tname="Bi", name="bi"),
+        Line("field", 1, start=I(4), size=I(4), tname="Float", name="ff"),
+        Line("field", 1, start=I(8), size=I(1), tname="Ee", name="ee"),
+        Line("field", 1, start=I(9), size=L("int", "xx"), tname="UInt", tbits=8, dims=[None], name="arr"),
+        Line("let", 1, name="vv", value=X("int", "+", [L("int", "xx"), I(1)]), site="virtual-field"),
+        Line("let", 1, name="vs", value=L("opaque", "bi")),
+    ]
+    return ls
+
+
+def _site(ls, name):
+    if name == "module":
+        return -1, 0
+    for i, l in enumerate(ls):
+        if l.f.get("site") == name:
+            return i, (2 if name in ("enum-value", "field", "virtual-field") else 1)
+    raise KeyError(name)
+
+
+def _named(ls, n):
+    return [i for i, l in enumerate(ls) if l.kind in ("field", "let") and l.f.get("name") == n][0]
+
+
+# what the language reference allows: (attribute, scope, $default?)
+DOC_CPP_ALLOWED = {("namespace", "module", False), ("enum_case", "module", True), ("enum_case", "struct", True),
+                   ("enum_case", "bits", True), ("enum_case", "enum", True), ("enum_case", "enum-value", False)}
+CPP_SCOPES = ["module", "struct", "bits", "enum", "enum-value", "field", "virtual-field"]
+NS_GOOD = ["foo::bar::baz", "::foo::bar::baz", "simple", " a :: b ", "_x9::Y_", "::\\n a"]
+NS_BAD = [("empty", ""), ("empty", "   "), ("global", "::"), ("global", " :: "), ("invalid", "foo::"), ("invalid", "foo:bar"),
+          ("invalid", "foo:::bar"), ("invalid", "9foo"), ("invalid", "foo bar"), ("invalid", "foo.bar"), ("invalid", "::::a"),
+          ("reserved", "foo::class"), ("reserved", "int"), ("reserved", "a::NULL::b"), ("reserved", " namespace ")]
+EC_GOOD = ["kCamelCase", "SHOUTY_CASE", "SHOUTY_CASE, kCamelCase", "kCamelCase,SHOUTY_CASE,", " kCamelCase , "]
+EC_BAD = [("empty", ""), ("empty", ","), ("empty", "kCamelCase,,SHOUTY_CASE"), ("empty", ",kCamelCase"), ("empty", "kCamelCase,,"),
+          ("duplicate", "kCamelCase, kCamelCase"), ("duplicate", "SHOUTY_CASE,kCamelCase,SHOUTY_CASE"),
+          ("unsupported", "snake_case"), ("unsupported", "kcamelcase"), ("unsupported", "kCamel Case"), ("unsupported", "kCamelCase;SHOUTY_CASE")]
+
+
+def cpp_cases(rng, thorough=False):
+    """(cpp) namespace / enum_case at every scope, with and without $default, good and bad values."""
+    out = []
+
+    def build(rule, ok, sc, nm, value, default, second=None):
+        ls = _mini_lines()
+        i, indent = _site(ls, sc)
+        new = [Line("attr", indent, name=nm, value=value, default=default, backend="cpp")]
+        if second is not None:
+            new.append(Line("attr", indent, name=second[0], value=second[1], default=second[2], backend="cpp"))
+        at = i + 1 if sc != "module" else 0
+        for k, nl in enumerate(new):
+            ls.insert(at + k, nl)
+        out.append(Case(ls, rule, at + len(new), doc_typed=True, doc_realisable=ok, cls="C14"))
+
+    q = lambda s: '"%s"' % s
+    # placement table
+    for sc in CPP_SCOPES:
+        for nm in ("namespace", "enum_case"):
+            for default in (False, True):
+                good = q(rng.choice(NS_GOOD if nm == "namespace" else EC_GOOD))
+                if (nm, sc, default) in DOC_CPP_ALLOWED:
+                    build("boundary-ok:cpp-%s-on-%s" % (nm, sc), True, sc, nm, good, default)
+                elif (nm, sc, not default) in DOC_CPP_ALLOWED:
+                    build("cpp-%s:%s" % ("not-defaultable" if default else "must-be-default", "%s-on-%s" % (nm, sc)), False, sc, nm, good, default)
+                else:
+                    build("cpp-wrong-scope:%s-on-%s" % (nm, sc), False, sc, nm, good, default)
+    # values
+    for v in NS_GOOD:
+        build("boundary-ok:cpp-namespace-value", True, "module", "namespace", q(v), False)
+    for cls, v in NS_BAD:
+        build("cpp-namespace-%s" % cls, False, "module", "namespace", q(v), False)
+    ec_sites = [("module", True), ("struct", True), ("bits", True), ("enum", True), ("enum-value", False)]
+    for v in EC_GOOD:
+        sc, d = rng.choice(ec_sites)
+        build("boundary-ok:cpp-enum-case-value", True, sc, "enum_case", q(v), d)
+    for cls, v in EC_BAD:
+        sc, d = rng.choice(ec_sites)
+        build("cpp-enum-case-%s" % cls, False, sc, "enum_case", q(v), d)
+    # multiplicity, value kinds, unknown names
+    build("cpp-attribute-duplicate", False, "module", "namespace", q("a"), False, second=("namespace", q("b"), False))
+    build("cpp-attribute-duplicate", False, "enum", "enum_case", q("kCamelCase"), True, second=("enum_case", q("SHOUTY_CASE"), True))
+    build("boundary-ok:cpp-two-different-attributes", True, "module", "namespace", q("a::b"), False, second=("enum_case", q("kCamelCase"), True))
+    build("cpp-attribute-wrong-value-type", False, "module", "namespace", "3", False)
+    build("cpp-attribute-wrong-value-type", False, "enum", "enum_case", "true", True)
+    build("cpp-attribute-wrong-value-type", False, "enum-value", "enum_case", "Ee.BB", False)
+    for sc in rng.sample(CPP_SCOPES, 3 if not thorough else 7):
+        nm = rng.choice(["byte_order", "text_output", "requires", "name_space", "enumcase"])
+        val = {"byte_order": q("BigEndian"), "text_output": q("Skip"), "requires": "true"}.get(nm, q("x"))
+        build("cpp-unknown-attribute:%s" % sc, False, sc, nm, val, False)
+    return out
+
+
+def ext_cases(rng):
+    """[requires] placement, parameter rules, the 64-bit limit of run-time integer expressions."""
+    out = []
+    I = lambda n: L("int", str(n))
+
+    def after(rule, ok, fname, new_lines, which=0):
+        ls = _mini_lines()
+        i = _named(ls, fname)
+        for k, nl in enumerate(new_lines):
+            ls.insert(i + 1 + k, nl)
+        out.append(Case(ls, rule, i + 2 + which, doc_typed=True, doc_realisable=ok, cls="C14"))
+    req = lambda v: Line("attr", 2, name="requires", value=v)
+    after("boundary-ok:requires-on-integer-field", True, "xx", [req("this < 200")])
+    after("boundary-ok:requires-on-enum-field", True, "ee", [req("this == Ee.AA")])
+    after("boundary-ok:requires-on-virtual-field", True, "vv", [req("this != 7")])
+    after("requires-on-array-field", False, "arr", [req("true")])
+    after("requires-on-structure-field", False, "bi", [req("true")])
+    after("requires-on-float-field", False, "ff", [req("true")])
+    after("requires-on-opaque-virtual-field", False, "vs", [req("true")])
+    # boolean fields: a Flag in the bits type
+    ls = _mini_lines()
+    i = _named(ls, "fg")
+    ls.insert(i + 1, req("this || true"))
+    out.append(Case(ls, "boundary-ok:requires-on-boolean-field", i + 2, doc_typed=True, doc_realisable=True, cls="C14"))
+    # parameters
+    for rule, ok, ty in (("parameter-enum-with-size", False, "Ee:8"), ("parameter-integer-without-size", False, "UInt"),
+                         ("parameter-integer-without-size", False, "Int"), ("boundary-ok:parameter-int-64", True, "Int:64"),
+                         ("boundary-ok:parameter-enum-without-size", True, "Ee"), ("parameter-width-65", False, "Int:65"),
+                         ("parameter-width-0", False, "Bcd:0"), ("boundary-ok:parameter-width-1", True, "UInt:1")):
+        ls = _mini_lines()
+        h = [k for k, l in enumerate(ls) if l.f.get("site") == "struct"][0]
+        ls[h].f["params"] = list(ls[h].f["params"]) + [("pz", ty)]
+        out.append(Case(ls, rule, h + 1, doc_typed=True, doc_realisable=ok, cls="C14"))
+    # reserved words as parameter names: one snake_case word from each of several languages' lists (regenerated from
+    # the compiler's list), as first and as last parameter; a non-reserved neighbour stays realisable
+    import re as _re
+    from compiler.front_end import constraints as _constraints
+    by_lang = {}
+    for w, lang in sorted(_constraints.get_reserved_word_list().items()):
+        if _re.fullmatch(r"[a-z][a-z_0-9]*", w):
+            by_lang.setdefault(lang, []).append(w)
+    langs = sorted(by_lang)
+    picked = [(lang, rng.choice(by_lang[lang])) for lang in (langs if len(langs) <= 6 else rng.sample(langs, 6))]
+    if "class" not in [w for _, w in picked]:
+        picked.append(("fixed", "class"))
+    for k, (lang, w) in enumerate(picked):
+        for pos in ("first", "last"):
+            if pos == "last" and k % 2:
+                continue
+            ls = _mini_lines()
+            h = [j for j, l in enumerate(ls) if l.f.get("site") == "struct"][0]
+            ps = list(ls[h].f["params"])
+            ps = [(w, ps[0][1])] + ps[1:] if pos == "first" else ps + [(w, "Int:16")]
+            ls[h].f["params"] = ps
+            out.append(Case(ls, "reserved-word:parameter-name:%s:%s" % (pos, _re.sub(r"[^A-Za-z0-9]+", "-", str(lang))), h + 1,
+                            doc_typed=True, doc_realisable=False, cls="C14"))
+        near = w + "_"
+        while near in _constraints.get_reserved_word_list():
+            near += "x"
+        ls = _mini_lines()
+        h = [j for j, l in enumerate(ls) if l.f.get("site") == "struct"][0]
+        ls[h].f["params"] = list(ls[h].f["params"]) + [(near, "Int:16")]
+        out.append(Case(ls, "boundary-ok:parameter-name-next-to-reserved-word", h + 1, doc_typed=True, doc_realisable=True, cls="C14"))
+    # 64-bit limits: xx is 0..255, yy is -32768..32767
+    K = "0x0101_0101_0101_0101"        # 255 * K = 2**64 - 1
+    S = "0x0001_0000_0000_0000"        # -32768 * S = -2**63
+    let = lambda n, v: Line("let", 1, name=n, value=L("int", v))
+    after("boundary-ok:expression-reaches-uint64-maximum", True, "vs", [let("g0", "xx * %s" % K)])
+    after("expression-exceeds-uint64", False, "vs", [let("g1", "xx * %s + 1" % K)])
+    after("boundary-ok:expression-reaches-int64-minimum", True, "vs", [let("g2", "yy * %s" % S)])
+    after("expression-below-int64", False, "vs", [let("g3", "yy * %s - 1" % S)])
+    after("expression-fits-neither-64-bit-type", False, "vs", [let("g4", "xx * %s + yy" % K)])
+    after("expression-mixes-int64-and-uint64", False, "vs", [Line("let", 1, name="g5", value=L("bool", "xx * %s > yy" % K))])
+    after("boundary-ok:comparison-in-uint64", True, "vs", [Line("let", 1, name="g6", value=L("bool", "xx * %s > pa" % K))])
+    after("field-size-exceeds-64-bits", False, "vs",
+          [Line("field", 1, start=I(300), size=L("int", "xx * 0x100_0000_0000_0000 * 0x1000"), tname="UInt", tbits=8, dims=[None], name="big")])
+    after("expression-intermediate-exceeds-uint64", False, "vs", [let("g7", "(xx * %s + 1) - (xx * %s + 1)" % (K, K))])
+    return out
+
+
+IMPORTED = """[$default byte_order: "BigEndian"]
+%s
+struct Bar:
+  0 [+2]  UInt  q
+struct Dyn:
+  0 [+1]  UInt  n
+  1 [+n]  UInt:8[]  d
+enum Ee:
+  [maximum_bits: 8]
+  AA = 1
+bits Nib:
+  0 [+4]  UInt  v
+"""
+
+
+def import_cases(rng):
+    """A field whose type comes from an imported module obeys the same rules."""
+    out = []
+
+    def mk(rule, ok, body, line, head='[$default byte_order: "LittleEndian"]', imp_extra="", in_import=False):
+        text_lines = ['import "o.emb" as o', head, "struct Main:"] + body
+        text_lines = [t for t in text_lines if t is not None]
+        ls = [Line("raw", 0, text=t) for t in text_lines]
+        c = Case(ls, rule, line, doc_typed=True, doc_realisable=ok, cls="C14")
+        c.extra = {"o.emb": IMPORTED % imp_extra}
+        out.append(c)
+    mk("boundary-ok:imported-struct-field", True, ["  0 [+2]  o.Bar  b", "  2 [+1]  o.Ee  e", "  3 [+1]  bits:", "    0 [+4]  o.Nib  n", "  4 [+4]  o.Bar[2]  a"], 4)
+    mk("enum-field-wider-than-maximum-bits:imported", False, ["  0 [+2]  o.Bar  b", "  2 [+2]  o.Ee  e"], 5)
+    mk("explicit-size-mismatch:imported-struct", False, ["  0 [+2]  o.Bar:8  b"], 4)
+    mk("boundary-ok:explicit-size-equal:imported-struct", True, ["  0 [+2]  o.Bar:16  b"], 4)
+    mk("bits-byte-oriented-member:imported", False, ["  0 [+2]  bits:", "    0 [+16]  o.Bar  b"], 5)
+    mk("array-element-dynamic-size:imported", False, ["  0 [+8]  o.Dyn[2]  d"], 4)
+    mk("imported-struct-in-too-small-field", False, ["  0 [+1]  o.Bar  b"], 4)
+    mk("byte-order-on-struct-typed-field:imported", False, ["  0 [+2]  o.Bar  b", '    [byte_order: "BigEndian"]'], 5)
+    mk("array-element-not-whole-bytes:imported", False, ["  0 [+1]  o.Nib[2]  n"], 4)
+    # the imported module's $default is not the importer's
+    mk("byte-order-missing:imported-default-does-not-apply", False, ["  0 [+2]  UInt  u"], 3, head=None)
+    mk("boundary-ok:imported-type-needs-no-byte-order", True, ["  0 [+2]  o.Bar  b"], 3, head=None)
+    # rules inside the imported module
+    mk("cpp-namespace-reserved:imported-module", False, ["  0 [+2]  o.Bar  b"], 2, imp_extra='[(cpp) namespace: "x::class"]', in_import=True)
+    mk("boundary-ok:cpp-namespace:imported-module", True, ["  0 [+2]  o.Bar  b"], 2, imp_extra='[(cpp) namespace: "x::y"]')
+    mk("attribute-undeclared-back-end:imported-module", False, ["  0 [+2]  o.Bar  b"], 2, imp_extra='[(xyz) namespace: "x::y"]', in_import=True)
+    mk("attribute-duplicate:imported-module", False, ["  0 [+2]  o.Bar  b"], 2, imp_extra='[$default byte_order: "BigEndian"]', in_import=True)
+    return out
+
+
+def constant_size_cases():
+    """Physical fields whose SIZE is constant without being a literal: a reference to a constant `let` of the same
+    structure, arithmetic on constant lets, a static reference `Kk.n`, and the literal itself.  A field "has a fixed
+    size" when its size expression can only take one value: by the reference, size-less UInt/Int/Bcd/enum fields of
+    1..8 bytes are realisable in all four spellings, an explicit width or a fixed-size structure must equal 8*n.
+    Deterministic (no rng): every run has the whole family.  Verdicts are by construction."""
+    out = []
+    spellings = [("constant-let", lambda n: "n"), ("arithmetic-on-constant-lets", lambda n: "n + m - 2"),
+                 ("static-reference", lambda n: "Kk.n"), ("literal", lambda n: str(n))]
+    rows = []   # (type text, n, realisable?, rule)
+    for n in (1, 2, 8):
+        rows.append(("UInt", n, True, "boundary-ok:sizeless-uint-%d-bytes" % n))
+    rows.append(("UInt", 9, False, "width-72:uint"))
+    rows.append(("UInt", 0, False, "width-0:uint"))
+    rows.append(("Int", 3, True, "boundary-ok:sizeless-int-3-bytes"))
+    rows.append(("Bcd", 8, True, "boundary-ok:sizeless-bcd-8-bytes"))
+    rows.append(("Big", 1, True, "boundary-ok:sizeless-enum-1-byte"))
+    rows.append(("Big", 8, True, "boundary-ok:sizeless-enum-8-bytes"))
+    rows.append(("Small", 2, False, "enum-field-wider-than-maximum-bits"))
+    rows.append(("Float", 4, True, "boundary-ok:float-4-bytes"))
+    rows.append(("Float", 3, False, "float-24-bits"))
+    rows.append(("UInt:16", 2, True, "boundary-ok:explicit-size-equal"))
+    rows.append(("UInt:16", 1, False, "explicit-size-larger-than-field"))
+    rows.append(("UInt:16", 3, False, "explicit-size-smaller-than-field"))
+    rows.append(("Two", 2, True, "boundary-ok:fixed-size-struct-fits"))
+    rows.append(("Two", 1, False, "struct-in-too-small-field"))
+    rows.append(("Two", 3, False, "struct-in-too-large-field"))
+    for ty, n, ok, rule in rows:
+        for sp, f in spellings:
+            text = ['[$default byte_order: "LittleEndian"]', "enum Big:", "  XA = 0", "enum Small:", "  [maximum_bits: 8]", "  SA = 0",
+                    "struct Two:", "  0 [+2]  UInt  t", "struct Kk:", "  let n = %d" % n, "  let m = 2",
+                    "  0 [+%s]  %s  x" % (f(n), ty), "  16 [+1]  UInt  tail_byte"]
+            ls = [Line("raw", 0, text=t) for t in text]
+            out.append(Case(ls, "%s:size-by-%s" % (rule, sp), 12, doc_typed=True, doc_realisable=ok, cls="C14"))
     return out
